@@ -335,8 +335,18 @@ type vC09Watch struct {
 	// what happened to temp files (names <file>.tmp.*) and to the two named files since the last drain, as the
 	// codes of Run.v OFs: 10c+k, c = 0 tombstones / 1 state; k = 1 temp created, 2 written, 3 closed after
 	// writing, 4 moved away, 5 named file replaced by a move, 6 temp deleted, 7 named file created / written /
-	// deleted in place, 8 something moved onto a temp name; consecutive repeats collapsed
+	// deleted in place, 8 something moved onto a temp name, 9 anything about another name that starts with the
+	// file's name (a side file such as <file>.bak); 99 anything about a name that has nothing to do with the two
+	// files; consecutive repeats collapsed
 	events []int
+	// the same events as they came, for composing the directory after any prefix of them
+	raw []vC09RawEv
+}
+
+type vC09RawEv struct {
+	mask   uint32
+	name   string
+	cookie uint32
 }
 
 const vC09WatchMask = syscall.IN_CREATE | syscall.IN_MODIFY | syscall.IN_CLOSE_WRITE | syscall.IN_MOVED_FROM | syscall.IN_MOVED_TO | syscall.IN_DELETE
@@ -355,8 +365,12 @@ func vC09EventCode(mask uint32, name string) int {
 		c, temp = 0, true
 	case strings.HasPrefix(name, stateFile+".tmp."):
 		c, temp = 10, true
+	case strings.HasPrefix(name, tombstoneFile+"."):
+		return 9
+	case strings.HasPrefix(name, stateFile+"."):
+		return 19
 	default:
-		return -1
+		return 99
 	}
 	if !temp {
 		if mask&syscall.IN_MOVED_TO != 0 {
@@ -456,6 +470,7 @@ func (w *vC09Watch) drain() []string {
 	}
 	var names []string
 	w.events = nil
+	w.raw = nil
 	buf := make([]byte, 64*1024)
 	for {
 		n, err := syscall.Read(w.fd, buf)
@@ -469,6 +484,9 @@ func (w *vC09Watch) drain() []string {
 			name := string(bytes.TrimRight(buf[off+syscall.SizeofInotifyEvent:off+syscall.SizeofInotifyEvent+nameLen], "\x00"))
 			if ev.Mask&syscall.IN_MOVED_TO != 0 && int(ev.Wd) == w.wd {
 				names = append(names, name)
+			}
+			if int(ev.Wd) == w.wd && ev.Mask&syscall.IN_ISDIR == 0 && name != "" {
+				w.raw = append(w.raw, vC09RawEv{ev.Mask, name, ev.Cookie})
 			}
 			if int(ev.Wd) == w.wd {
 				if c := vC09EventCode(ev.Mask, name); c >= 0 && (len(w.events) == 0 || w.events[len(w.events)-1] != c) {
@@ -561,7 +579,9 @@ type vC09H struct {
 	sticky                   vC09Faults
 	stickyLeft               int
 	windowSeen               map[string]bool
-	junk                     map[string]bool // temp files lying in the directory (left by simulated crashes)
+	junk                     map[string]bool   // temp files lying in the directory (left by simulated crashes)
+	preDir, postDir          map[string][]byte // every regular file of the directory before / after the last run
+	rawEv                    []vC09RawEv       // what the watcher saw during the last run (after the fetch hook)
 	tRun, tNew               time.Duration
 	nRun, nNew, nDrop        int
 }
@@ -1021,6 +1041,7 @@ func (h *vC09H) run(fe vC09Fetch, fl vC09Faults) {
 	}
 	sp, tp := h.spath(), h.tpath()
 	h.preS, h.preSok = vC09ReadOpt(sp)
+	h.preDir = h.readDir()
 	h.preT, h.preTok = vC09ReadOpt(tp)
 	fetchCoq := "FErr"
 	var ans []dns.RR
@@ -1156,15 +1177,18 @@ func (h *vC09H) run(fe vC09Fetch, fl vC09Faults) {
 		case stateFile:
 			h.renames = append(h.renames, 1)
 		default:
-			h.bad = "unexpected file moved into the directory: " + n
+			if h.watch.fd < 0 {
+				h.bad = "unexpected file moved into the directory: " + n
+			} // else: part of the event list of this run (code 9 / 99), judged there
 		}
 	}
 	ents, _ := os.ReadDir(h.dir)
 	for _, e := range ents {
 		if e.Name() != stateFile && e.Name() != tombstoneFile && !h.junk[e.Name()] {
-			if vC09EventCode(syscall.IN_CREATE, e.Name())%10 == 1 && h.watch.fd >= 0 {
-				// a temp file the run left behind: reported through the watcher's event list (no "deleted" event),
-				// judged there; it stays in the directory as it would in production
+			if h.watch.fd >= 0 {
+				// a file the run left behind (a temp file that was not deleted, a side file such as <file>.bak):
+				// what the run did to the directory is an observation, not an infrastructure hiccup — it is in the
+				// watcher's event list and judged there; the file stays where it is, as it would in production
 				if h.junk == nil {
 					h.junk = map[string]bool{}
 				}
@@ -1176,6 +1200,8 @@ func (h *vC09H) run(fe vC09Fetch, fl vC09Faults) {
 	}
 	h.postS, h.postSok = vC09ReadOpt(sp)
 	h.postT, h.postTok = vC09ReadOpt(tp)
+	h.postDir = h.readDir()
+	h.rawEv = append([]vC09RawEv(nil), h.watch.raw...)
 	h.cur = h.observe()
 	var rn []string
 	for _, x := range h.renames {
@@ -1450,7 +1476,143 @@ func (h *vC09H) probes(served *vC09Fetch) {
 // The process died between two file-system operations of atomicGobWrite: besides what the first k replacements
 // leave under the two names, the temp file of a write in progress lies in the directory. junk: 0 none, else
 // 1 + 3*target + fill (target 0 tombstones 1 state; fill 0 empty 1 half-written 2 complete); < 0: pick.
-func (h *vC09H) rollback(k int, cfg []vC09Sym) { h.rollbackJunk(k, cfg, -1) }
+func (h *vC09H) rollback(k int, cfg []vC09Sym) {
+	if h.watch.fd >= 0 && len(h.rawEv) > 0 && h.rng.Intn(2) == 0 {
+		h.rollbackEv(h.rng.Intn(len(h.rawEv)+1), cfg)
+		return
+	}
+	h.rollbackJunk(k, cfg, -1)
+}
+
+func (h *vC09H) readDir() map[string][]byte {
+	out := map[string][]byte{}
+	ents, _ := os.ReadDir(h.dir)
+	for _, e := range ents {
+		if b, ok := vC09ReadOpt(filepath.Join(h.dir, e.Name())); ok {
+			out[e.Name()] = b
+		}
+	}
+	return out
+}
+
+// The process died after the first j directory operations the watcher saw during the last run — ANY prefix of them,
+// not only the replacements of the two named files. The directory is composed by replaying those operations on the
+// files that were there before the run: a file created during the run holds nothing, half, or all of what it holds
+// in the end, according to whether it had been written / closed by then; renames move whatever was under the old
+// name; deletions delete. Whatever the code does to the directory (temp files, side files, moving a named file away)
+// is thereby part of the crash states the history goes through. For the model the crash is ORollback k, k = the
+// replacements of the two named files among the first j operations.
+func (h *vC09H) rollbackEv(j int, cfg []vC09Sym) {
+	if j > len(h.rawEv) {
+		j = len(h.rawEv)
+	}
+	type ident struct {
+		pre   bool
+		bytes []byte // pre: content; else the content it has in the end (nil: did not survive the run)
+		stage int    // 0 created, 1 written to, 2 closed after writing
+		known bool
+	}
+	state := map[string]*ident{}
+	for n, b := range h.preDir {
+		state[n] = &ident{pre: true, bytes: b, stage: 2, known: true}
+	}
+	pending := map[uint32]*ident{}
+	var snap map[string]*ident
+	snapStage := map[*ident]int{}
+	k := 0
+	take := func() {
+		snap = map[string]*ident{}
+		for n, id := range state {
+			snap[n] = id
+			snapStage[id] = id.stage
+		}
+	}
+	for i, ev := range h.rawEv {
+		if i == j {
+			take()
+		}
+		switch {
+		case ev.mask&syscall.IN_CREATE != 0:
+			state[ev.name] = &ident{}
+		case ev.mask&syscall.IN_MODIFY != 0:
+			if id := state[ev.name]; id != nil && !id.pre && id.stage < 1 {
+				id.stage = 1
+			} else if id != nil && id.pre {
+				// a file that was there before the run is written in place: from here on it is neither old nor new
+				nid := &ident{stage: 1}
+				state[ev.name] = nid
+			}
+		case ev.mask&syscall.IN_CLOSE_WRITE != 0:
+			if id := state[ev.name]; id != nil && !id.pre {
+				id.stage = 2
+			}
+		case ev.mask&syscall.IN_MOVED_FROM != 0:
+			if id := state[ev.name]; id != nil {
+				pending[ev.cookie] = id
+			}
+			delete(state, ev.name)
+		case ev.mask&syscall.IN_MOVED_TO != 0:
+			if id := pending[ev.cookie]; id != nil {
+				state[ev.name] = id
+				delete(pending, ev.cookie)
+			} else {
+				state[ev.name] = &ident{stage: 2}
+			}
+			if i < j && (ev.name == stateFile || ev.name == tombstoneFile) {
+				k++
+			}
+		case ev.mask&syscall.IN_DELETE != 0:
+			delete(state, ev.name)
+		}
+	}
+	if snap == nil {
+		take()
+	}
+	// what the files created during the run hold in the end
+	for n, id := range state {
+		if !id.pre {
+			if b, ok := h.postDir[n]; ok {
+				id.bytes, id.known = b, true
+			}
+		}
+	}
+	h.script = append(h.script, map[string]any{"op": "rollback", "k": k, "ev": j, "cfg": h.roles(cfg)})
+	ents, _ := os.ReadDir(h.dir)
+	for _, e := range ents {
+		_ = os.RemoveAll(filepath.Join(h.dir, e.Name()))
+	}
+	h.junk = map[string]bool{}
+	var names []string
+	for n := range snap {
+		names = append(names, n)
+	}
+	sort.Strings(names)
+	var lying []string
+	for _, n := range names {
+		id := snap[n]
+		b := id.bytes
+		if !id.pre {
+			if !id.known || len(b) == 0 {
+				b = []byte("\x0c\xff\x81\x04\x01\x02 not a complete gob stream")
+			}
+			switch snapStage[id] {
+			case 0:
+				b = nil
+			case 1:
+				b = b[:len(b)/2]
+			}
+		}
+		_ = os.WriteFile(filepath.Join(h.dir, n), b, 0o600)
+		if n != stateFile && n != tombstoneFile {
+			h.junk[n] = true
+			lying = append(lying, fmt.Sprintf("%s(%d octets)", n, len(b)))
+		}
+	}
+	h.newResolver(cfg, 0, false)
+	h.steps = append(h.steps, fmt.Sprintf("ORollback %d %s %s", k, vC09KeysCoq(cfg), h.cur.coq()))
+	h.desc = append(h.desc, fmt.Sprintf("crash after %d of the %d directory operations of that run (%d of %v replacements), other files lying in the directory: %v, restart cfg=%s -> %s",
+		j, len(h.rawEv), k, h.renames, lying, vC09KeysCoq(cfg), h.cur.short()))
+}
 
 func (h *vC09H) rollbackJunk(k int, cfg []vC09Sym, junk int) {
 	if k > len(h.renames) {
@@ -2544,7 +2706,11 @@ func (h *vC09H) play(ops []map[string]any) bool {
 			if !ok {
 				return false
 			}
-			h.rollbackJunk(num(op["k"]), cfg, num(op["junk"]))
+			if _, ok := op["ev"]; ok && h.watch.fd >= 0 {
+				h.rollbackEv(num(op["ev"]), cfg)
+			} else {
+				h.rollbackJunk(num(op["k"]), cfg, num(op["junk"]))
+			}
 		case "run":
 			ks, ok := keys(op["keys"])
 			if !ok {
